@@ -157,7 +157,7 @@ func Unmarshal(hash string, v interface{}) error {
 			}
 		case !fi.Opts.Group && frag.Type() == parse.NodeValue:
 			switch {
-			case fi.Opts.Param != "" && strings.HasPrefix(frag.String(), fi.Opts.Param), fi.Opts.Param == "":
+			case fi.Opts.Param != "" && strings.HasPrefix(frag.String(), fi.Opts.Param+"="), fi.Opts.Param == "":
 				// Param/value
 				if err := unmarshal(frag, ti, fi, unmarshalIndirect(val.FieldByIndex(fi.Index))); err != nil {
 					return err
